@@ -1397,7 +1397,7 @@ BUILTIN_FUNCS = {
     "len", "int", "str", "isinstance", "divmod", "bool", "any", "all", "callable", "type", "repr", "min",
     "max", "abs", "ord", "chr", "list", "tuple", "dict", "set", "sorted", "enumerate", "zip", "map",
     "filter", "getattr", "hasattr", "float", "range", "print", "id", "iter", "next", "issubclass", "sum",
-    "setattr", "format", "hash", "frozenset", "super",
+    "setattr", "format", "hash", "frozenset", "super", "round",
 }
 
 
